@@ -362,7 +362,7 @@ func checkC08(c *Ctx) *core.Result {
 
 	// ---- V4: blacklist() is true only as `tableLookup(k) == 'F'`, false when
 	// the fingerprint is empty.
-	fpClass, okF := p.ConstInt("sqliTokenTypeFingerprint")
+	fpClass, okF := int64(classFingerprint), true
 	if !okF {
 		anchorFail(r, "sqliTokenTypeFingerprint", "constant not found")
 	}
@@ -450,7 +450,7 @@ func checkC08(c *Ctx) *core.Result {
 
 	// ---- V6: the fingerprint field is written only in the pass function, from
 	// a Builder fed with token classes, or the constant "X".
-	evil, _ := p.ConstInt("sqliTokenTypeEvil")
+	evil := int64(classEvil)
 	for _, fn := range p.SourceFuncs(nil) {
 		for _, b := range fn.Blocks {
 			for _, ins := range b.Instrs {
